@@ -6,7 +6,7 @@
 //@rewrite-text !u.as_slice().eq(c3) ==> shim_ne_slices(u.as_slice(), c3)
 //@rewrite-text ((klen as f64) / 32.0).ceil() as u32 ==> shim_ceil_div32(klen)
 //@assume shim_all_zero / shim_ne_slices / shim_ceil_div32 / shim_to_be_u32: all-zero test, slice inequality, ceil(klen/32) via f64, big-endian u32 (external_body shims whose body is the replaced std expression)
-//@assume G2 point arithmetic (TwistPoint::g_mul, twist_point_add_full), Fp12 arithmetic (pow, fp_mul, to_bytes_be) and the pairing are seen ONLY through the hand-written contracts of the `assumed` sections (bodies in gm-sm9/src/points.rs and fields/fp12.rs are not verified by Verus against them; their formulas are covered by Lean obligations; bilinearity/C12 is not claimed). G1 point arithmetic is proved in unit sm9_g1 and imported through its contracts
+//@assume Fp12 arithmetic (pow, fp_mul, to_bytes_be) and the pairing sm9_u256_pairing are seen ONLY through the hand-written contracts of the `assumed` sections (bodies in gm-sm9/src/points.rs and fields/fp12.rs are not verified by Verus against them; their formulas are covered by Lean obligations; bilinearity/C12 is not claimed). G1 and G2 point arithmetic are proved in units sm9_g1 / sm9_g2 and imported through their contracts
 //@assume rejection loops (sign, encrypt, exch_step_1b) terminate with probability 1 (exec_allows_no_decreases_clause)
 //@include-spec sm2_math
 //@include-spec sm9_math
@@ -14,6 +14,7 @@
 //@include-spec sm2_util
 //@include-spec sm9_rand
 //@include-spec sm9_g1
+//@include-spec sm9_g2
 //@section spec
 use core::fmt::Debug;
 use vstd::arithmetic::div_mod::*;
@@ -28,8 +29,6 @@ impl Eq for Fp12 {}
 #[verifier::external]
 impl core::fmt::Debug for Sm9Error { fn fmt(&self, f: &mut core::fmt::Formatter<'_>) -> core::fmt::Result { Ok(()) } }
 // representation predicates / abstractions (G1 concrete, G2 / GT abstract)
-pub uninterp spec fn valid2(q: TwistPoint) -> bool;
-pub uninterp spec fn abs2(q: TwistPoint) -> Pt2;
 // ok12 additionally fixes the number of coefficients of the abstract view (needed for |gt_bytes| = 384)
 pub uninterp spec fn ok12_repr(f: Fp12) -> bool;
 pub uninterp spec fn abs12(f: Fp12) -> Gt;
@@ -188,8 +187,6 @@ proof fn lemma_key9_consts()
     k9_z_one(SM9_POINT_MONT_P1);
     lemma_params9();
 }
-#[verifier::external_body]
-proof fn ax_p2_generator() ensures valid2(SM9_TWIST_POINT_MONT_P2), abs2(SM9_TWIST_POINT_MONT_P2) == G2P() { }
 //@section code gm-sm9/src/u256.rs
 fn xor(k: &[u8], data: &[u8], len: usize) -> (ret: Vec<u8>)
     requires len <= k@.len(), len <= data@.len()
@@ -211,16 +208,9 @@ fn xor(k: &[u8], data: &[u8], len: usize) -> (ret: Vec<u8>)
 //@stub sm9_g1 Point::point_add
 //@stub sm9_g1 Point::point_mul
 //@stub sm9_g1 Point::g_mul
+//@stub sm9_g2 TwistPoint::g_mul
+//@stub sm9_g2 twist_point_add_full
 //@section assumed gm-sm9/src/points.rs
-impl TwistPoint {
-    fn g_mul(k: &U256) -> (r: TwistPoint)
-        ensures valid2(r), abs2(r) == g2_smul(val4(k@), G2P())
-    { unimplemented!() }
-}
-fn twist_point_add_full(p1: &TwistPoint, p2: &TwistPoint) -> (r: TwistPoint)
-    requires valid2(*p1), valid2(*p2)
-    ensures valid2(r), abs2(r) == g2_add(abs2(*p1), abs2(*p2))
-{ unimplemented!() }
 fn sm9_u256_pairing(q: &TwistPoint, p: &Point) -> (r: Fp12)
     requires valid2(*q), valid1(*p)
     ensures ok12(r), abs12(r) == e9(abs2(*q), abs1(*p))
@@ -446,7 +436,7 @@ impl Sm9EncMasterKey {
         ensures exists|r: Seq<u64>| #[trigger] csprng9(r) && enc9_from_nonce(val4(r), abs1(self.ppube), idb@, data@, c@),
     {
         
-        proof { lemma_key9_consts(); lemma_params9(); ax_p2_generator(); }
+        proof { lemma_key9_consts(); lemma_params9(); lemma_p2_generator(); }
         let t = sm9_u256_hash1(idb, SM9_HID_ENC);
         let mut c1 = SM9_POINT_MONT_P1.point_mul(&t);
         c1 = c1.point_add(&self.ppube);
@@ -902,7 +892,7 @@ fn exch_step_1b(
         res is Ok ==> (exists|rb: Seq<u64>| #[trigger] csprng9(rb) && exch9_b(val4(rb), abs1(msk.ppube), abs2(key.de), ida@, idb@, abs1(*ra), klen as nat, abs1(res->Ok_0.0), res->Ok_0.1@)),
 {
     
-    proof { lemma_key9_consts(); lemma_params9(); ax_p2_generator(); }
+    proof { lemma_key9_consts(); lemma_params9(); lemma_p2_generator(); }
     let mut rb = sm9_u256_hash1(ida, SM9_HID_EXCH);
     let mut r = SM9_POINT_MONT_P1.point_mul(&rb);
     r = r.point_add(&msk.ppube);
@@ -999,7 +989,7 @@ fn exch_step_2a(
         res is Ok ==> res->Ok_0@ == exch9_key(ida@, idb@, abs1(*ra), abs1(*rb),
             gt_pow(e9(G2P(), abs1(msk.ppube)), val4(ra_@)), e9(abs2(key.de), abs1(*rb)), gt_pow(e9(abs2(key.de), abs1(*rb)), val4(ra_@)), klen as nat),
 {
-    proof { lemma_key9_consts(); lemma_params9(); ax_p2_generator(); }
+    proof { lemma_key9_consts(); lemma_params9(); lemma_p2_generator(); }
     let mut sk = vec![];
     loop
         invariant_except_break valid1(msk.ppube), valid2(key.de), wf1(*ra), val4(ra.z@) != 0, wf1(*rb), val4(rb.z@) != 0, 1 <= klen < 0x1_0000_0000, val4(ra_@) < N9() - 1,
